@@ -15,7 +15,8 @@ RULE = ('histories over an alphabet of 18 mutators (add_atom, add_bond 1/2/coord
         'clean_stereo, coordinate edit on a copy; in the random histories also standardize / neutralize / clean_isotopes / '
         'fix_resonance in place and isotope edits) with a reader of derived values (str, hash, sssr, atoms_order, brutto, '
         'rings_count, components, fingerprints, stereo views ...) interposed before every mutator: exhaustive sequences up '
-        'to length 3 (quick) / 4 (thorough) on 6 seed molecules + long random histories on corpus molecules; after every '
+        'to length 3 (quick) / 4 (thorough) on 6 seed molecules + long random histories on corpus molecules, curated molecules and 14 covalently drawn salts / complexes '
+        '(in-place normalisers incl. split_metal_salts and remove_coordinate_bonds among the operations; one derived view read before the string in 3 of 4 comparisons); after every '
         'step the cache-coherence shadow compares each derived view with a cache-free rebuild (fresh container, same atoms '
         'and bonds, stereo re-attached) and the class invariant is evaluated; non-trivial = history with >= 2 mutators of '
         'which one deletes or is a transaction, distinct by (seed molecule, op list)')
@@ -40,6 +41,11 @@ READERS = ['str', 'hash', 'sssr', 'atoms_order', 'brutto', 'rings_count', 'conne
            'molecular_charge', 'linear_hash_set', 'morgan_hash_set', 'smiles_atoms_order', 'tetrahedrons', 'cumulenes',
            'stereogenic_tetrahedrons', '_chiral_morgan', 'aromatic_rings', 'bonds_count', 'is_radical', 'atoms_rings_sizes',
            'not_special_connectivity', 'skin_graph', 'int_adjacency', 'chiral']
+
+
+# covalently drawn salts and complexes: the in-place salt / complex normalisers have something to do
+METAL_SALTS = ['O=C1O[Ca]OC1=O', 'CC(=O)O[Na]', 'C1CO[Mg]O1', 'c1ccc2c(c1)O[Ba]O2', 'CCO[K]', 'CC(=O)O[Ca]OC(C)=O', '[Li]OC(=O)C1CC1', 'O=C(O[Na])c1ccccc1C(=O)O[Na]',
+               'CS(=O)(=O)O[K]', 'C1CCC(CC1)O[Li]', '[Cu]1~NCCN~1', 'Cl[Pt](Cl)(~N)~N', 'CC(=O)O[Sr]OC(=O)C1CC1', 'OP1(=O)O[Ca]O1']
 
 
 class EndHistory(Exception):
@@ -446,7 +452,7 @@ def run_prim(mol, st):
 
 
 # in-place normalisers and isotope edits take part in the random histories only (the exhaustive alphabet stays at 18)
-OPS_RANDOM = OPS + ['standardize', 'neutralize', 'clean_isotopes', 'fix_resonance', 'explicify_hydrogens', 'implicify_hydrogens', 'remove_metals', 'txn_isotope', 'txn_isotope', 'txn_charge', 'txn_radical']
+OPS_RANDOM = OPS + ['standardize', 'neutralize', 'clean_isotopes', 'fix_resonance', 'explicify_hydrogens', 'implicify_hydrogens', 'remove_metals', 'split_metal_salts', 'remove_coordinate_bonds', 'txn_isotope', 'txn_isotope', 'txn_charge', 'txn_radical']
 
 
 def M_components(mol):
@@ -674,7 +680,7 @@ def apply(ctx, mol, op, k, hist):
         mol.clean_stereo()
         hist.append(('clean_stereo',))
         return mol, True
-    if op in ('standardize', 'neutralize', 'clean_isotopes', 'fix_resonance', 'explicify_hydrogens', 'implicify_hydrogens', 'remove_metals'):
+    if op in ('standardize', 'neutralize', 'clean_isotopes', 'fix_resonance', 'explicify_hydrogens', 'implicify_hydrogens', 'remove_metals', 'split_metal_salts', 'remove_coordinate_bonds'):
         if any(x.implicit_hydrogens is None for _, x in mol.atoms()):
             return mol, False       # normalisation is defined for valence-valid molecules
         hist.append((op,))
@@ -774,7 +780,8 @@ def worker(ctx):
     for i in range(cfg['n_random'] // ctx.nshards):
         if ctx.out_of_time():
             break
-        s = rng.choice(c) if rng.random() < .8 else rng.choice(G.SPECIAL)
+        r = rng.random()
+        s = rng.choice(c) if r < .75 else (rng.choice(G.SPECIAL) if r < .92 else rng.choice(METAL_SALTS))
         try:
             m = smiles(s)
             m.kekule()
@@ -851,7 +858,7 @@ def replay(ctx, mechanism, w):
                 mol.kekule()
             elif name == 'clean_stereo':
                 mol.clean_stereo()
-            elif name in ('standardize', 'neutralize', 'clean_isotopes', 'fix_resonance', 'explicify_hydrogens', 'implicify_hydrogens', 'remove_metals'):
+            elif name in ('standardize', 'neutralize', 'clean_isotopes', 'fix_resonance', 'explicify_hydrogens', 'implicify_hydrogens', 'remove_metals', 'split_metal_salts', 'remove_coordinate_bonds'):
                 getattr(mol, name)()
             elif name == 'txn_isotope':
                 with mol:
